@@ -5,6 +5,9 @@
 # 2. applies it to /repo, runs the given checks (quick tier), and undoes it straight afterwards
 # Output: /tmp/seed-results/<name>.txt
 set -u
+# VERIF_SNAP: a snapshot copy of /verif (bin, spec, known_findings.json, harness/rtsrc) to run the checks from, so that
+# /verif can be edited while a batch of seeds is being tried (defaults to /tmp/verif-snap when it exists)
+if [ -z "${VERIF_SNAP:-}" ] && [ -d /tmp/verif-snap/bin ]; then VERIF_SNAP=/tmp/verif-snap; fi
 export GOFLAGS=-mod=mod GOPROXY=off GOSUMDB=off GOTOOLCHAIN=local
 SEED=$(realpath "$1"); shift
 NAME=$(basename "$SEED")
@@ -62,7 +65,7 @@ log "demo with the change:     $(run_demo "$WT" mutant)"
 # itself stays untouched and available (equivalent to git -C /repo apply; run; git checkout)
 rm -rf "$WT/seedwork"
 for id in "$@"; do
-  (cd /verif && VERIF_REPO="$WT" VERIF_EVIDENCE_DIR=/tmp/seed-results/evidence VERIF_REPLAY_DIR=/tmp/seed-results/replays timeout 3600 ./bin/verifctl check "$id" --tier ${VERIF_TRY_TIER:-quick}) > "/tmp/seed-results/$NAME.$id.log" 2>&1
+  (cd ${VERIF_SNAP:-/verif} && VERIF_DIR=${VERIF_SNAP:-/verif} VERIF_REPO="$WT" VERIF_EVIDENCE_DIR=/tmp/seed-results/evidence VERIF_REPLAY_DIR=/tmp/seed-results/replays timeout 3600 ./bin/verifctl check "$id" --tier ${VERIF_TRY_TIER:-quick}) > "/tmp/seed-results/$NAME.$id.log" 2>&1
   rc=$?
   nv=$(grep -c '^VIOLATION' "/tmp/seed-results/$NAME.$id.log")
   log "check $id: exit=$rc violations_printed=$nv $(grep '^RESULT' /tmp/seed-results/$NAME.$id.log | cut -c1-120)"
